@@ -1,5 +1,31 @@
 prop("C19", pkg="c19",
-     rule="TODO",
+     rule="rapid draws a message schema (as for C12; maps restricted to map<string,V>, field numbers incl. 255/256/257/300/317-319/2047/2048/65535/65536/70000/2^29-1) and, "
+          "per schema, 2-5 (thorough: 8-20) (rewriter, input) pairs. Rewriter: ParseRewriteTemplate(TypeOf(type), JSON) over a random subset of fields (non-zero, zero and null scalars; "
+          "nested partial templates for singular messages to depth 3; arrays of non-zero elements / complete objects for repeated fields; objects with non-empty keys "
+          "and non-zero values for maps), the same with RewriterRules carrying BitOr[T] on singular integer fields (nested rules for sub-messages), or a hand-assembled "
+          "MessageRewriter of FieldNumber(n).Bool/Int/.../Bytes/Value(v), MultiRewriter(...) and BitOrRewriter(...). Input: the reference's encoding of a random value, "
+          "then protowire variants (unknown fields of all four wire types interleaved at every level, permutation, scalar fields present repeatedly, embedded messages "
+          "split, non-minimal varints); templated fields are absent in about half of the cases. Oracle: original := reference decode of the input; expected := original "
+          "with templated fields replaced (BitOr: or-ed); output parses with protowire, the reference decodes it to expected (floats by bits, nil==empty), untemplated "
+          "fields incl. unknown ones appear in the same order with identical values (byte-identical when every varint of the input is minimal; recursively inside a "
+          "singly-present templated sub-message), input and template bytes unchanged, same result when appending to a non-empty out with spare capacity and the prefix "
+          "kept; panics are failures. Non-trivial = template touches >= 1 field present in the input and leaves >= 1 present field untouched; distinct = FNV-64 of the "
+          "case JSON. While listed as known the generator avoids: rule sets whose highest number M has M>=256 and M%64<61, BitOr on zigzag fields, several "
+          "occurrences of a field that carries a nested template or BitOr (counts under excluded_known).",
      quick=dict(shards=8, scale=1, timeout=600),
-     thorough=dict(shards=16, scale=12, timeout=3000),
-     technique="TODO", level_text="TODO", level_note="TODO", assumptions=[])
+     thorough=dict(shards=16, scale=2, timeout=3000),
+     technique="rapid property-based testing against a value-level model, with google.golang.org/protobuf v1.26.0 (dynamicpb) as decoder of inputs and outputs and "
+               "protowire for input surgery and the carry-over check",
+     level_text="Exploration: about 0.16 M (type, rewriter, input) triples per quick run are checked against the value model; a rewriter output that does not decode to "
+                "'original with exactly the templated fields replaced', loses/reorders/changes an untemplated field, touches its input, template or out-prefix, or "
+                "panics is reported with a replayable case. Held = no such case outside the 3 classes listed in known_findings.json.",
+     level_note="Trusted base: protobuf-go v1.26.0 as decoder, harness/pschema and the ~20-line value model in harness/c19. Not covered: templated field numbers above "
+                "100 000 (MessageRewriter is a slice indexed by field number: 2^29-1 would need 8 GiB; larger numbers only occur as untemplated/unknown fields), "
+                "fixed32/fixed64-tagged integer fields inside templates (proto.TypeOf cannot express them; only hand-assembled Fixed32/Fixed64 rules), map templates "
+                "with non-string keys (ParseRewriteTemplate reports an error), template shapes whose meaning the statement does not fix (zero elements in arrays, "
+                "partial objects for repeated/map message values, empty map keys, null for messages), custom Rewriterer rules, groups in the input. Outputs are decoded "
+                "with the reference rather than proto.Unmarshal so that C12's decoder defects do not leak into this property.",
+     assumptions=["protobuf-go v1.26.0 decodes the standard wire format correctly; 'the original value' of an input is what it decodes",
+                  "canonically encoded = every varint (tag, value, length) has its minimal width",
+                  "a zero/null scalar template value means the field is cleared (rewrite_test.go zero_N cases); emitting an explicit zero instead is value-equivalent and not distinguished",
+                  "nil == empty for slices, maps, bytes and absent vs all-zero sub-messages"])
